@@ -39,6 +39,8 @@ func menu(w *chain.World) []chain.Action {
 		// transactions whose lists have different lengths / several elements and kinds per transaction
 		chain.V1Gather(), chain.Merge(chain.V1Pay(true, 2), chain.V1SF(true)), chain.Merge(chain.V1Form(1, 2, 100), chain.V1Pay(false, 1)),
 		chain.Merge(chain.V2Pay(chain.AddrV2, true, 2), chain.V2SF(true)), chain.Merge(chain.V2Form(1, 2, 100), chain.V2Attest()), chain.Merge(chain.V2Pay(chain.AddrACS, false, 1), chain.V2Revise("pay")),
+		// the siafund pool grows in mid-block (contract tax) before a siafund output is created and spent in the same block
+		chain.Seq("v1form;v1sfchain", chain.V1Form(1, 2, 100), chain.V1SFChain()), chain.Seq("v2form;v2sfchain", chain.V2Form(1, 2, 100), chain.V2SFChain()),
 	}
 }
 
